@@ -5,6 +5,7 @@ import (
 	"flag"
 	"fmt"
 	"os"
+	"strings"
 	"time"
 
 	"verif/harness/cat"
@@ -26,6 +27,7 @@ func devMain(args []string) int {
 		faults := fs.Int("faults", 1, "")
 		show := fs.Int("show", 5, "")
 		noview := fs.Bool("noview", false, "")
+		match := fs.String("match", "", "keep only catalogs whose note contains this")
 		fs.Parse(args[1:])
 		ft, ok := fam.Presets[*feat]
 		if !ok && *feat != "lib" && *feat != "chain" && *feat != "shadow" && *feat != "groups" && *feat != "keys" && *feat != "softnest" && *feat != "reenter" && *feat != "libgroups" && *feat != "groupcycle" && *feat != "deeptree" && *feat != "deepcycle" && *feat != "gaps" && *feat != "decpairs" && *feat != "ifacegroups" {
@@ -58,6 +60,15 @@ func devMain(args []string) int {
 			cats = fam.Sample(fam.Keys([]cat.Opts{{Recover: true}}, false), *seed, *n)
 		case "groups":
 			cats = fam.Sample(fam.Groups([]cat.Opts{{Recover: true}}, false), *seed, *n)
+		}
+		if *match != "" {
+			var keep []*cat.Catalog
+			for _, c := range cats {
+				if strings.Contains(c.Note, *match) {
+					keep = append(keep, c)
+				}
+			}
+			cats = keep
 		}
 		if *feat == "libgroups" {
 			cats = fam.LibGroups(*seed, *n, []cat.Opts{{Recover: true}}, false)
